@@ -235,8 +235,8 @@ def bilin_inv(
     g: ParticleArray,
     F: Field,
     G: Field,
-    maxiter: int = 7,
-    tol: float = 1.0e-7,
+    maxiter: int = 20,
+    tol: float = 1.0e-14,
 ) -> tuple[ParticleArray, ParticleArray]:
     """Inverse bilinear interpolation
 
@@ -277,8 +277,10 @@ def bilin_inv(
     y = np.zeros_like(f) + 0.5 * jmax
 
     for _t in range(maxiter):
-        i = x.astype("i")
-        j = y.astype("i")
+        # Grid cell of the estimate, the outermost cells also serve estimates outside
+        # (a negative index would silently address the opposite side of the grid)
+        i = np.clip(np.floor(x), 0, imax - 2).astype("i")
+        j = np.clip(np.floor(y), 0, jmax - 2).astype("i")
         p, q = x - i, y - j
 
         # Bilinear estimate of F[x,y] and G[x,y]
@@ -296,8 +298,10 @@ def bilin_inv(
         )
 
         H = (Fs - f) ** 2 + (Gs - g) ** 2
-        # print t, H
-        if np.all(H < tol):
+        # Each point is iterated until it has converged itself,
+        # its result must not depend on the other points
+        todo = ~(H < tol)
+        if not np.any(todo):
             break
 
         # Estimate Jacobi matrix
@@ -311,8 +315,8 @@ def bilin_inv(
         # incr = - np.dot(Jinv, [Fs-f, Gs-g])
         # x = x + incr[0], y = y + incr[1]
         det = Fx * Gy - Fy * Gx
-        x -= (Gy * (Fs - f) - Fy * (Gs - g)) / det
-        y -= (-Gx * (Fs - f) + Fx * (Gs - g)) / det
+        x = np.where(todo, x - (Gy * (Fs - f) - Fy * (Gs - g)) / det, x)
+        y = np.where(todo, y - (-Gx * (Fs - f) + Fx * (Gs - g)) / det, y)
 
     return x, y
 
